@@ -2,9 +2,11 @@ package main
 
 import (
 	"bytes"
+	"encoding/hex"
 	"fmt"
 	"runtime"
 	"sort"
+	"strconv"
 	"sync"
 	"time"
 
@@ -38,16 +40,16 @@ func buildConcOps(st *trie.SlimTrie, qs []string, complete bool, i32 bool, small
 		q := q
 		switch i % 4 {
 		case 0:
-			add("Get", func() string { v, f := st.Get(q); return show(v) + fmt.Sprint(f) })
+			add("Get", func() string { v, f := st.Get(q); return qshow(v) + qbool(f) })
 		case 1:
-			add("GetID", func() string { return fmt.Sprint(st.GetID(q)) })
+			add("GetID", func() string { return strconv.Itoa(int(st.GetID(q))) })
 		case 2:
-			add("RangeGet", func() string { v, f := st.RangeGet(q); return show(v) + fmt.Sprint(f) })
+			add("RangeGet", func() string { v, f := st.RangeGet(q); return qshow(v) + qbool(f) })
 		case 3:
-			add("Search", func() string { l, e, r := st.Search(q); return show(l) + show(e) + show(r) })
+			add("Search", func() string { l, e, r := st.Search(q); return qshow(l) + qshow(e) + qshow(r) })
 		}
 		if i32 && i%5 == 0 {
-			add("GetI32", func() string { v, f := st.GetI32(q); return fmt.Sprint(v, f) })
+			add("GetI32", func() string { v, f := st.GetI32(q); return strconv.Itoa(int(v)) + qbool(f) })
 		}
 		if complete && i%6 == 0 {
 			incl := i%12 == 0
@@ -55,7 +57,7 @@ func buildConcOps(st *trie.SlimTrie, qs []string, complete bool, i32 bool, small
 				var b bytes.Buffer
 				n := 0
 				st.ScanFrom(q, incl, true, func(k, v []byte) bool {
-					fmt.Fprintf(&b, "%x=%x,", k, v)
+					qkv(&b, k, v)
 					n++
 					return n < 40
 				})
@@ -66,7 +68,8 @@ func buildConcOps(st *trie.SlimTrie, qs []string, complete bool, i32 bool, small
 				var b bytes.Buffer
 				n := 0
 				st.ScanFromTo(q, !incl, end, incl, false, func(k, v []byte) bool {
-					fmt.Fprintf(&b, "%x,", k)
+					b.WriteString(hex.EncodeToString(k))
+					b.WriteByte(',')
 					n++
 					return n < 40
 				})
@@ -81,7 +84,7 @@ func buildConcOps(st *trie.SlimTrie, qs []string, complete bool, i32 bool, small
 						b.WriteString("END")
 						break
 					}
-					fmt.Fprintf(&b, "%x=%x,", k, v)
+					qkv(&b, k, v)
 					if t%8 == 7 {
 						runtime.Gosched()
 					}
@@ -97,7 +100,7 @@ func buildConcOps(st *trie.SlimTrie, qs []string, complete bool, i32 bool, small
 				var b bytes.Buffer
 				n := 0
 				st.ScanFrom("", true, withVal, func(k, v []byte) bool {
-					fmt.Fprintf(&b, "%x=%x,", k, v)
+					qkv(&b, k, v)
 					n++
 					return n < 200
 				})
@@ -111,21 +114,93 @@ func buildConcOps(st *trie.SlimTrie, qs []string, complete bool, i32 bool, small
 					if k == nil {
 						break
 					}
-					fmt.Fprintf(&b, "%x=%x,", k, v)
+					qkv(&b, k, v)
 				}
 				return b.String()
 			})
 		}
 	}
 	for t := 0; t < 6; t++ {
-		add("Stat", func() string { return fmt.Sprintf("%+v", *st.Stat()) })
-		add("Marshal", func() string { b, err := st.Marshal(); return fmt.Sprintf("%d %x %v", len(b), sha8(b), err) })
-		add("proto.Size", func() string { return fmt.Sprint(proto.Size(st)) })
+		add("Stat", func() string { return qstat(st.Stat()) })
+		add("Marshal", func() string {
+			b, err := st.Marshal()
+			return strconv.Itoa(len(b)) + " " + hex.EncodeToString(sha8(b)) + " " + qbool(err == nil)
+		})
+		add("proto.Size", func() string { return strconv.Itoa(proto.Size(st)) })
 		if small {
-			add("String", func() string { s := st.String(); return fmt.Sprintf("%d %x", len(s), sha8([]byte(s))) })
+			add("String", func() string {
+				s := st.String()
+				return strconv.Itoa(len(s)) + " " + hex.EncodeToString(sha8([]byte(s)))
+			})
 		}
 	}
 	return ops
+}
+
+// The operation closures avoid fmt: its printer objects travel between
+// goroutines through a sync.Pool, and a pooled object handed from one goroutine
+// to another is a happens-before edge for the race detector - synchronisation
+// that the program under observation does not have.
+func qshow(v interface{}) string {
+	switch x := v.(type) {
+	case nil:
+		return "<nil>"
+	case int8:
+		return "i8:" + strconv.FormatInt(int64(x), 10)
+	case int16:
+		return "i16:" + strconv.FormatInt(int64(x), 10)
+	case int32:
+		return "i32:" + strconv.FormatInt(int64(x), 10)
+	case int64:
+		return "i64:" + strconv.FormatInt(x, 10)
+	case int:
+		return "int:" + strconv.FormatInt(int64(x), 10)
+	case uint16:
+		return "u16:" + strconv.FormatUint(uint64(x), 10)
+	case uint32:
+		return "u32:" + strconv.FormatUint(uint64(x), 10)
+	case uint64:
+		return "u64:" + strconv.FormatUint(x, 10)
+	case string:
+		return "str:" + hex.EncodeToString([]byte(x))
+	case []byte:
+		return "bytes:" + hex.EncodeToString(x)
+	case TStruct:
+		return "ts:" + hex.EncodeToString(refStruct(x, false))
+	}
+	return show(v)
+}
+
+func qbool(b bool) string {
+	if b {
+		return "true"
+	}
+	return "false"
+}
+
+func qkv(b *bytes.Buffer, k, v []byte) {
+	b.WriteString(hex.EncodeToString(k))
+	b.WriteByte('=')
+	b.WriteString(hex.EncodeToString(v))
+	b.WriteByte(',')
+}
+
+func qstat(s *trie.Stat) string {
+	var b bytes.Buffer
+	b.WriteString(strconv.Itoa(int(s.LevelCnt)))
+	b.WriteByte('/')
+	b.WriteString(strconv.Itoa(int(s.KeyCnt)))
+	b.WriteByte('/')
+	b.WriteString(strconv.Itoa(int(s.NodeCnt)))
+	for _, l := range s.Levels {
+		b.WriteByte(' ')
+		b.WriteString(strconv.Itoa(int(l.Total)))
+		b.WriteByte(',')
+		b.WriteString(strconv.Itoa(int(l.Inner)))
+		b.WriteByte(',')
+		b.WriteString(strconv.Itoa(int(l.Leaf)))
+	}
+	return b.String()
 }
 
 func sha8(b []byte) []byte {
